@@ -5,6 +5,18 @@ V = os.path.dirname(os.path.dirname(os.path.abspath(__file__)))
 claimed = {c["property_id"] for c in json.load(open(os.path.join(V, "MANIFEST.json")))["checks"]}
 only = sys.argv[1:]
 res_path = os.path.join(V, "seeded", "RESULTS.json")
+shard = os.environ.get("SHARD")  # "i/N": this process takes the properties with number % N == i and writes RESULTS.<i>.json (merge: tools/run_seeded.py --merge)
+if "--merge" in only:
+    import glob
+    results = json.load(open(res_path)) if os.path.exists(res_path) else {}
+    for f in sorted(glob.glob(os.path.join(V, "seeded", "RESULTS.*.json"))):
+        results.update(json.load(open(f)))
+        os.remove(f)
+    json.dump(dict(sorted(results.items())), open(res_path, "w"), indent=1)
+    print(len(results), "results;", sum(1 for r in results.values() if r.get("exit") == 1), "detected")
+    sys.exit(0)
+if shard:
+    res_path = os.path.join(V, "seeded", "RESULTS.%s.json" % shard.split("/")[0])
 results = json.load(open(res_path)) if os.path.exists(res_path) else {}
 for sid in sorted(os.listdir(os.path.join(V, "seeded"))):
     d = os.path.join(V, "seeded", sid)
@@ -12,6 +24,7 @@ for sid in sorted(os.listdir(os.path.join(V, "seeded"))):
     meta = json.load(open(os.path.join(d, "meta.json")))
     prop = meta["property"]
     if only and sid not in only and prop not in only: continue
+    if shard and int(prop[1:]) % int(shard.split("/")[1]) != int(shard.split("/")[0]): continue
     if not only and sid in results and results[sid].get("exit") is not None and not os.environ.get("REDO"): continue
     if prop not in claimed:
         results[sid] = dict(property=prop, outcome="property not claimed")
